@@ -1947,3 +1947,9 @@ package dig
 //@ func (gh *graphHolder) Order() (n)
 //@   requires gh != nil
 //@   ensures[C05:the-order-of-the-graph-is-its-node-count] n == len(gh.nodes) && unchangedAll()
+
+// ---------------------------------------------------------------------------
+// As records its arguments
+//@ func As(i) (r)
+//@   allocates plain
+//@   ensures[C09:as-option-records-its-arguments] is(r, provideAsOption) && as(r, provideAsOption) == i
